@@ -145,18 +145,33 @@ def _diff(want, got):
 # documented restrictions of the onnxruntime CPU kernels on otherwise valid models; only then is onnx.reference the judge
 ORT_LIMITATIONS = ("Dilation not supported for AutoPadType",)
 
-STATS = {"hosts_not_runnable": 0, "ort_compared": 0, "ref_sole_witness": 0, "ref_cross_checked": 0, "ref_disagrees_with_ort": 0}
+STATS = {"hosts_not_runnable": 0, "ort_compared": 0, "spec_judged": 0, "ref_sole_witness": 0, "ref_cross_checked": 0,
+         "ref_disagrees_with_ort": 0, "oracle_unreliable": 0}
+SPEC_MISMATCH = []      # (description) -- onnxruntime on the host differs from onnxruntime on the caller's spec model: harness error
 
 
-def oracle(host, new, feeds_list, exact=True, use_ref=True, ref_feeds=1):
+def _shapes(outs):
+    return [list(np.asarray(o).shape) for o in outs]
+
+
+def oracle(host, new, feeds_list, exact=True, use_ref=True, ref_feeds=1, spec_host=None, host_shapes=None):
     """The property itself on the real code.  Returns (reasons, n_compared).
     reasons is empty when the rewritten model is checker-valid and reproduces the host's outputs for every feed.
-    onnxruntime (ORT_DISABLE_ALL, single-threaded) decides whenever it can run the host.  onnx.reference decides when
-    onnxruntime cannot run the host because of a documented kernel restriction (ORT_LIMITATIONS: SAME_* auto_pad with
-    dilations); a host that onnxruntime rejects for another reason is counted in STATS['hosts_not_runnable'] and skipped.  Where both run, the reference evaluator is
-    a cross-check only: it mis-handles some attribute combinations (auto_pad=VALID, ConvTranspose group+bias, ConvInteger
-    pads were all observed), so a verdict of the reference evaluator that onnxruntime does not share is counted in
-    STATS['ref_disagrees_with_ort'] and not reported."""
+
+    Who judges:
+    1. onnxruntime (ORT_DISABLE_ALL, single-threaded) whenever it can run the host.
+    2. If onnxruntime cannot run the host because of a documented kernel restriction (ORT_LIMITATIONS: SAME_* auto_pad with
+       dilations) and the caller supplies `spec_host` -- the host re-stated per the operator document in a form onnxruntime
+       executes (explicit pads of the SAME_* formula proved in coq/Rules/PadConvProofs.v) -- the rewritten model is compared
+       on onnxruntime with that spec model.  Whenever onnxruntime CAN run the host, spec_host is also run and must agree
+       with it (otherwise SPEC_MISMATCH, a harness error), so the spec model is itself measured on every run.
+    3. onnx.reference judges alone only if neither is possible AND its result on the ORIGINAL model has the output shapes
+       the operator document prescribes (`host_shapes`); otherwise the instance is counted in STATS['oracle_unreliable']
+       and not judged.  (The reference evaluator violates the document for SAME_* with an even kernel and stride 2, for
+       auto_pad=VALID, ConvTranspose group+bias, ConvInteger pads: all observed.)
+    A host that onnxruntime rejects for another reason is counted in STATS['hosts_not_runnable'] and skipped.  Where
+    onnxruntime judges, the reference evaluator is a cross-check only: a verdict it does not share with onnxruntime is
+    counted in STATS['ref_disagrees_with_ort'] and not reported."""
     import onnx
     reasons = []
     try:
@@ -164,6 +179,7 @@ def oracle(host, new, feeds_list, exact=True, use_ref=True, ref_feeds=1):
     except Exception as e:
         reasons.append("checker: " + str(e).strip().splitlines()[0][:160])
     so_h, so_n = _Sess("ort", host), _Sess("ort", new)
+    so_s = _Sess("ort", spec_host) if spec_host is not None else None
     sr_h = sr_n = None
     n = 0
     for fi, feeds in enumerate(feeds_list):
@@ -179,13 +195,49 @@ def oracle(host, new, feeds_list, exact=True, use_ref=True, ref_feeds=1):
                 ort_bad = "ort: " + _diff(want, got)
             if ort_bad:
                 reasons.append(ort_bad)
+            if so_s is not None:
+                ws, es = so_s.run(feeds)
+                if es is not None or not base.same_outputs(want, ws, exact=exact):
+                    SPEC_MISMATCH.append("spec model differs from onnxruntime on the host: " + (str(es)[:120] if es is not None else _diff(want, ws)))
+        elif not any(t in str(e0) for t in ORT_LIMITATIONS):
+            STATS["hosts_not_runnable"] += 1          # onnxruntime rejects the host itself: says nothing about the rule
+            continue
+        elif so_s is not None:
+            ws, es = so_s.run(feeds)
+            if es is not None:
+                SPEC_MISMATCH.append("spec model does not run on onnxruntime: " + str(es)[:160])
+                continue
+            got, e1 = so_n.run(feeds)
+            if e1 is None or not any(t in str(e1) for t in ORT_LIMITATIONS):
+                n += 1
+                STATS["spec_judged"] += 1
+                if e1 is not None:
+                    reasons.append(f"ort: rewritten model fails to run: {str(e1).strip().splitlines()[0][:140]}")
+                elif not base.same_outputs(ws, got, exact=exact):
+                    reasons.append("ort(rewritten) vs ort(host re-stated with the operator document's explicit pads): " + _diff(ws, got))
+                if use_ref and fi < ref_feeds:            # how trustworthy would the reference evaluator have been here?
+                    if sr_h is None:
+                        sr_h = _Sess("ref", host)
+                    wr, r0 = sr_h.run(feeds)
+                    if r0 is None and not base.same_outputs(ws, wr, exact=False):
+                        STATS["oracle_unreliable"] += 1
+                continue
+            # the rewritten model hits the same onnxruntime restriction (the rule left the node alone): reference evaluator,
+            # subject to the validation below
         if not use_ref or (e0 is None and fi >= ref_feeds):     # the (slow) reference evaluator: first feed(s) only
             continue
         if sr_h is None:
-            sr_h, sr_n = _Sess("ref", host), _Sess("ref", new)
+            sr_h = _Sess("ref", host)
+        if sr_n is None:
+            sr_n = _Sess("ref", new)
         wr, r0 = sr_h.run(feeds)
         if r0 is not None:
             continue
+        if e0 is not None:
+            # reference evaluator alone: only if its result on the original obeys the operator document's output shapes
+            if host_shapes is None or _shapes(wr) != [list(x) for x in host_shapes]:
+                STATS["oracle_unreliable"] += 1
+                continue
         gr, r1 = sr_n.run(feeds)
         ref_bad = None
         if r1 is not None:
@@ -193,9 +245,6 @@ def oracle(host, new, feeds_list, exact=True, use_ref=True, ref_feeds=1):
         elif not base.same_outputs(wr, gr, exact=exact):
             ref_bad = "ref: " + _diff(wr, gr)
         if e0 is not None:
-            if not any(t in str(e0) for t in ORT_LIMITATIONS):
-                STATS["hosts_not_runnable"] += 1      # onnxruntime rejects the host itself: says nothing about the rule
-                continue
             n += 1
             STATS["ref_sole_witness"] += 1
             if ref_bad:
